@@ -236,10 +236,16 @@ pub async fn quic_frames_thread(name: String, sessions: QuicFrameSessions, input
                 let frame = frame.unwrap();
                 let sid = frame.session_id;
                 if let Some(session) = sessions.get(&sid).await {
-                    if session.is_closed() || session.send(frame).await.is_err() {
-                        drop(session);
-                        sessions.remove(&sid).await;
-                        tracing::trace!("quic recv error: sid={}", sid);
+                    // this task serves every session of the connection: it must not wait for one of them.
+                    // A session whose queue is full (its client does not read) loses the datagram
+                    use tokio::sync::mpsc::error::TrySendError;
+                    match session.try_send(frame) {
+                        Ok(()) | Err(TrySendError::Full(_)) => {}
+                        Err(TrySendError::Closed(_)) => {
+                            drop(session);
+                            sessions.remove(&sid).await;
+                            tracing::trace!("quic recv error: sid={}", sid);
+                        }
                     }
                 }
             },
